@@ -403,6 +403,7 @@ def check_re_start(c, repo):
 
 
 MUTANTS = [
+    ('window-not-trimmed', 'expect', "                window = data[-self.searchwindowsize:]\n                spawn._buffer = spawn.buffer_type()", "                window = data\n                spawn._buffer = spawn.buffer_type()", 'D7'),
     ('offset-drop-len', 'expect', "offset = -(freshlen + len(s))", "offset = -freshlen", 'D1'),
     ('offset-minus-2', 'expect', "offset = -(freshlen + len(s))", "offset = -(freshlen + len(s) - 2)", 'D1'),
     ('offset-window-plus', 'expect', "offset = -searchwindowsize", "offset = -searchwindowsize + 1", 'D1'),
